@@ -272,19 +272,22 @@ theorem mergeAux_inv (O : Oracle) : ∀ (fuel : Nat) (s : X) (dest src : Nat),
     split
     · exact h
     · exact h
-    · have h1 := liveLoop_inv (P := P) (fun t : X => t.h) (fun t => (t.h.node src).secs)
-        (mergeSecBody O fuel (mergeAux O fuel) dest)
-        (fun t o ht => mergeSecBody_inv hP O fuel (fun t a b ht => ih t a b ht) dest t o ht) fuel 0 s h
-      split
-      · rename_i s1 heq
-        rw [heq] at h1
-        have h2 := liveLoop_inv (P := P) (fun t : X => t.h) (fun t => (t.h.node src).props)
-          (mergePropBody O fuel dest)
-          (fun t o ht => mergePropBody_inv hP O fuel dest t o ht) fuel 0 s1 h1
+    · split
+      · exact h
+      · exact h
+      · have h1 := liveLoop_inv (P := P) (fun t : X => t.h) (fun t => (t.h.node src).secs)
+          (mergeSecBody O fuel (mergeAux O fuel) dest)
+          (fun t o ht => mergeSecBody_inv hP O fuel (fun t a b ht => ih t a b ht) dest t o ht) fuel 0 s h
         split
-        · rename_i s2 heq2; rw [heq2] at h2; exact h2
-        · rename_i r hne; exact h2
-      · rename_i r hne; exact h1
+        · rename_i s1 heq
+          rw [heq] at h1
+          have h2 := liveLoop_inv (P := P) (fun t : X => t.h) (fun t => (t.h.node src).props)
+            (mergePropBody O fuel dest)
+            (fun t o ht => mergePropBody_inv hP O fuel dest t o ht) fuel 0 s1 h1
+          split
+          · rename_i s2 heq2; rw [heq2] at h2; exact h2
+          · rename_i r hne; exact h2
+        · rename_i r hne; exact h1
 
 theorem setLinkAux_inv (O : Oracle) (fuel : Nat) (s : X) (x : Nat) (v : LinkVal) (h : P s.h) :
     P (setLinkAux O fuel s x v).1.h := by
@@ -665,29 +668,32 @@ theorem mergeAux_adds (O : Oracle) {n : Nat} {h0 : H} (hn : n ≤ h0.size) :
     split
     · exact h
     · exact h
-    · have h1 := liveLoop_inv (P := MInv n h0) (fun t : X => t.h) (fun t => (t.h.node src).secs)
-        (mergeSecBody O fuel (mergeAux O fuel) dest)
-        (by
-          intro t o ht
-          unfold mergeSecBody
-          split
-          · exact ih _ _ _ ht
-          · exact cloneAppend_adds O fuel hn t dest o true ht) fuel 0 s h
-      split
-      · rename_i s1 heq
-        rw [heq] at h1
-        have h2 := liveLoop_inv (P := MInv n h0) (fun t : X => t.h) (fun t => (t.h.node src).props)
-          (mergePropBody O fuel dest)
+    · split
+      · exact h
+      · exact h
+      · have h1 := liveLoop_inv (P := MInv n h0) (fun t : X => t.h) (fun t => (t.h.node src).secs)
+          (mergeSecBody O fuel (mergeAux O fuel) dest)
           (by
             intro t o ht
-            unfold mergePropBody
+            unfold mergeSecBody
             split
-            · split <;> exact ht
-            · exact cloneAppend_adds O fuel hn t dest o false ht) fuel 0 s1 h1
+            · exact ih _ _ _ ht
+            · exact cloneAppend_adds O fuel hn t dest o true ht) fuel 0 s h
         split
-        · rename_i s2 heq2; rw [heq2] at h2; exact h2
-        · rename_i r hne; exact h2
-      · rename_i r hne; exact h1
+        · rename_i s1 heq
+          rw [heq] at h1
+          have h2 := liveLoop_inv (P := MInv n h0) (fun t : X => t.h) (fun t => (t.h.node src).props)
+            (mergePropBody O fuel dest)
+            (by
+              intro t o ht
+              unfold mergePropBody
+              split
+              · split <;> exact ht
+              · exact cloneAppend_adds O fuel hn t dest o false ht) fuel 0 s1 h1
+          split
+          · rename_i s2 heq2; rw [heq2] at h2; exact h2
+          · rename_i r hne; exact h2
+        · rename_i r hne; exact h1
 
 
 /-! ### clean / unmerge only detach -/
